@@ -233,6 +233,9 @@ func (f *Fn) LenOf(v ssa.Value) Expr {
 	case *ssa.MakeSlice:
 		return f.Norm(x.Len)
 	}
+	if ex, ok := v.(*ssa.Extract); ok {
+		f.summariseExtract(ex)
+	}
 	if u, ok := v.(*ssa.UnOp); ok && u.Op == token.MUL {
 		if ia, ok := u.X.(*ssa.IndexAddr); ok {
 			if k, isC := ssax.ConstInt(ia.Index); isC {
@@ -298,6 +301,9 @@ func (f *Fn) Norm(v ssa.Value) Expr {
 			return e
 		}
 		f.summariseCall(x)
+	}
+	if ex, ok := v.(*ssa.Extract); ok {
+		f.summariseExtract(ex)
 	}
 	if u, ok := v.(*ssa.UnOp); ok && u.Op == token.MUL {
 		if ia, ok := u.X.(*ssa.IndexAddr); ok {
